@@ -445,6 +445,14 @@ class Program:
                     impls = self.implementations(tq, fn.attr)
                     if impls:
                         return impls, None
+                    if fn.attr in ("visit", "generic_visit") and any(
+                        b.endswith("NodeVisitor") for b in [tq] + self.all_bases(tq)
+                    ):
+                        # ast.NodeVisitor dispatch: any visit_<Kind> method of the class may run
+                        vis = [m for c in [tq] + self.all_bases(tq) if c in self.classes
+                               for n, m in self.classes[c].methods.items() if n.startswith("visit_")]
+                        if vis:
+                            return vis, None
                 if tq is not None:
                     return [], f"{tq}.{fn.attr}"
             # name-based CHA: the method name is defined by package classes
